@@ -169,7 +169,9 @@ def run(ctx, R, tier):
                 fills = [x for x in reach if (callee_path(pb.blocks[x]['term']) or '').endswith('core::slice::<impl [T]>::fill')]
                 ok = bool(ms) and bool(mir) and bool(fills) and must_pass(pb, [tb], returns(pb), ms) \
                     and must_pass(pb, [tb], returns(pb), mir) and must_pass(pb, [tb], returns(pb), fills)
-                extra = [p for x, p in calls_in(pb, reach) if not p.endswith(('::mark_as_stopped', 'update_shared_playback_state', '<impl [T]>::fill'))]
+                extra = [p for x, p in calls_in(pb, reach) if not p.endswith(('::mark_as_stopped', 'update_shared_playback_state', '<impl [T]>::fill',
+                                                                                   # the publishing helper spelled out in place
+                                                                                   'Shared::set_state', 'PlaybackStateManager::playback_state', '::deref'))]
                 loops_in = [x for x in reach if pb.in_loop(x)]
                 R.check(ok and not extra and not loops_in and pb.dominates(ee[0][0], tb), 'B.C10.err-stop', 'gate',
                         'after a decode error StreamingSound::process does not stop (mark_as_stopped + publish) and return silence '
